@@ -553,6 +553,31 @@ def bytewise_cases(quick):
 # --------------------------------------------------------------------------
 # corrupted traces must be rejected (binding demonstration)
 
+def _close_index(frames):
+    for j, f in enumerate(frames):
+        if f['op'] == 'close':
+            return j
+    return len(frames)
+
+
+def _obliged(tr, i):
+    """Is line i (a deliver or a pong) one the monitor *requires* at the next
+    quiet line?  Only then is dropping it a corruption: what arrives after the
+    endpoint sent close, or stands behind the peer's close frame, need not be
+    delivered / answered (the statement is silent there)."""
+    lines, frames = tr['lines'], tr['cfg']['frames']
+    ln = lines[i]
+    step = max(k for k in range(i) if lines[k]['k'] in ('read', 'appwrite', 'appclose'))
+    if any(l2['k'] == 'sent' and l2['s'] == 'close' for l2 in lines[:step]):
+        return False
+    ci = _close_index(frames)
+    if ln['k'] == 'deliver':
+        fin = [j for j, f in enumerate(frames) if f['op'] in DATA and f['id'] == ln['a'] and f['fin']]
+    else:
+        fin = [j for j, f in enumerate(frames) if f['op'] == 'ping' and f['id'] == ln['a']]
+    return bool(fin) and fin[0] < ci
+
+
 def mutate_trace(rnd, tr):
     lines = [dict(ln) for ln in tr['lines']]
     dels = [i for i, ln in enumerate(lines) if ln['k'] == 'deliver']
@@ -577,8 +602,7 @@ def mutate_trace(rnd, tr):
         elif how == 'del_id':
             lines[i]['a'] = -1
         elif how == 'del_drop':
-            # closeSent before the read in which it arrived makes the delivery optional
-            if any(ln['k'] == 'sent' and ln['s'] == 'close' for ln in lines[:i]):
+            if not _obliged(tr, i):
                 return None
             del lines[i]
         elif how == 'del_dup':
@@ -600,7 +624,7 @@ def mutate_trace(rnd, tr):
         elif how == 'pong_mask':
             lines[i]['m'] = not lines[i]['m']
         else:
-            if any(ln['k'] == 'sent' and ln['s'] == 'close' for ln in lines[:i]):
+            if not _obliged(tr, i):
                 return None
             del lines[i]
     else:
@@ -612,6 +636,13 @@ def mutate_trace(rnd, tr):
         elif how == 'sent_type':
             lines[i]['s'] = 'bin' if lines[i]['s'] == 'text' else 'text'
         else:
+            # a write issued after the own close frame or after the peer's close frame arrived need not go out
+            st = Stream(tr['cfg']['frames'])
+            ci = _close_index(st.frames)
+            pos = max([l2['a'] for l2 in lines[:i] if l2['k'] == 'read'], default=0)
+            if any(l2['k'] == 'sent' and l2['s'] == 'close' for l2 in lines[:i]) or \
+                    (ci < len(st.frames) and st.ends[ci] <= pos):
+                return None
             del lines[i]
     return {'cfg': tr['cfg'], 'lines': lines}, how
 
@@ -749,8 +780,11 @@ def run(tier, replay=None):
                 ctx.note_drift('%s/%s: recorded lines differ from the model\'s for frames=%s ops=%s'
                                % (case['role'], case['mode'], json.dumps(case['frames']), json.dumps(case['ops'])))
 
-    # 5. binding demonstration: corrupted real traces must be rejected
+    # 5. binding demonstration: corrupted real traces must be rejected.  The
+    # traces come from the tree under test: if that tree violates C17 the
+    # verdict (exit 1) stands, a corruption that slips through is only noted.
     muts = []
+    selftest_missed = []
     order = list(range(len(accepted)))
     rnd.shuffle(order)
     for i in order:
@@ -760,11 +794,20 @@ def run(tier, replay=None):
         if m:
             muts.append(m)
     if muts:
-        mv, _ = tlc.validate_traces(SPEC, 'WsFramingTrace', 'WsFramingTrace.cfg', [m[0] for m in muts], shards=4)
-        missed = [(muts[i][1], muts[i][0]) for i, (c, _) in enumerate(mv) if not c]
-        if missed:
-            raise tlc.MachineryError('trace spec accepted %d corrupted traces, e.g. %s: %s'
-                                     % (len(missed), missed[0][0], json.dumps(missed[0][1])[:1500]))
+        try:
+            mv, _ = tlc.validate_traces(SPEC, 'WsFramingTrace', 'WsFramingTrace.cfg', [m[0] for m in muts], shards=4)
+            selftest_missed = [(muts[i][1], muts[i][0]) for i, (c, _) in enumerate(mv) if not c]
+        except tlc.MachineryError:
+            if not ctx.violations:
+                raise
+            selftest_missed = [('self-test could not run', {})]
+        if selftest_missed:
+            msg = 'trace spec accepted %d corrupted traces, e.g. %s: %s' % (
+                len(selftest_missed), selftest_missed[0][0], json.dumps(selftest_missed[0][1])[:1500])
+            if not ctx.violations:
+                raise tlc.MachineryError(msg)
+            ctx.notes.append('corrupted-trace self-test downgraded (the tree under test violates C17): ' + msg[:300])
+            print('NOTE: property=C17 ' + msg[:300])
 
     lap('compare_and_corrupted_traces')
     return ctx.finish(coverage={
@@ -779,7 +822,8 @@ def run(tier, replay=None):
         'history_dump_states': hist_states,
         'model_line_exact_match': n_match, 'model_line_compared': n_cmp,
         'trace_validation_states': stats['states'],
-        'corrupted_traces_rejected': len(muts),
+        'corrupted_traces_rejected': len(muts) - len(selftest_missed),
+        'corrupted_traces_not_rejected': len(selftest_missed),
         'defect_variant_counterexamples': {d: g.violated for d, g in gens.items()},
         'rule': 'cases = (role, mode, stream layout, cut/write/close script, masking-key variant): every maximal environment '
                 'history TLC dumps for WsFraming.tla at the HIST bounds x {server, client, client with constructor data}, '
